@@ -188,7 +188,7 @@ theorem terms_small (T : Tuning S) (idx : Index) (nq : Bytes) (o : Opts S)
 omit [ScoreOps S] in
 /-- … and by default `cap` is ten. -/
 theorem default_cap (o : Opts S) (h : o.topTermsCap ≤ 0) : effCap o = 10 := by
-  unfold effCap defaultTermCap; simp [h]
+  unfold effCap defaultTermCap Gen.SearchParams.defaultTermCap; simp [h]
 
 /-- For longer queries each of the first four content words is still used (a word that repeats an
     earlier one is used once; a word absent from the index is kept too) … -/
@@ -202,7 +202,7 @@ theorem terms_bound (T : Tuning S) (idx : Index) (nq : Bytes) (o : Opts S) :
     (∀ t ∈ selectTopTerms T idx (tokenize nq) (effCap o), t ∈ tokenize nq) ∧
     (selectTopTerms T idx (tokenize nq) (effCap o)).length ≤ max (effCap o) 4 := by
   refine ⟨selectTopTerms_subset T idx _ _, selectTopTerms_length T idx _ _ ?_⟩
-  unfold effCap defaultTermCap
+  unfold effCap defaultTermCap Gen.SearchParams.defaultTermCap
   split
   · omega
   · rename_i h; omega
